@@ -63,6 +63,20 @@ fn encode_to_disk_inner(ctx: &mut Ctx, p: &RtParams) -> Result<Encoded, EncErr> 
     let declared = p.cfg.declare_total.then(|| total_for(p.kind, &p.pcm));
     let disk = ctx.disk.clone();
     let mut pre = Vec::new();
+    // sometimes the caller hands over a trailing partial PCM frame (1..unit-1 stray samples or bytes);
+    // it must be dropped, and must not be counted or hashed either
+    let unit = match p.kind {
+        WKind::Sample => p.cfg.channels as usize,
+        WKind::ByteLE | WKind::ByteBE => p.cfg.channels as usize * p.cfg.bytes_per_sample(),
+        WKind::Channel => 1,
+    };
+    let tail: Vec<i32> = if unit >= 2 && declared.is_none() && ctx.ch.draw("w.partial_tail", 6) == 5 {
+        probe("write_with_trailing_partial_pcm_frame");
+        let t = 1 + ctx.ch.draw("w.partial_tail.n", unit as u64 - 1) as usize;
+        (0..t).map(|i| (i as i32 * 7 + 1) & 0x7f).collect()
+    } else {
+        Vec::new()
+    };
     let r = encode(
         &mut sink,
         &p.cfg,
@@ -71,7 +85,7 @@ fn encode_to_disk_inner(ctx: &mut Ctx, p: &RtParams) -> Result<Encoded, EncErr> 
         &p.chunks,
         declared,
         EndMode::Finalize,
-        &[],
+        &tail,
         &mut || pre = disk.data(file),
     );
     r?;
